@@ -25,7 +25,17 @@ Inductive msg :=
 | MCmp           (* the comparator's own message *)
 | MPlayer | MExtractor | MComparator      (* str(exception) of the failing stage (:368-372, :203-212) *)
 | MDied          (* "playback process have died" (:256) *)
-| MTimeout.      (* "timeout while running recording playback and comparison" (:275) *)
+| MTimeout       (* "timeout while running recording playback and comparison" (:275) *)
+| MUnload        (* str of what self._compare_results.get raised while loading the answer (:246 -> :203) *)
+| MRefused.      (* the worker's message in a (False, message) answer (:328, :249-250 -> :203) *)
+
+(** an answer that reaches the parent and cannot be used *)
+Inductive bad :=
+| Unloadable     (* the item pickled in the worker does not unpickle in the parent: [get] (:246) raises *)
+| Refused.       (* the worker's [put] of its result raised (:324): the worker loop answers (False, str(ex)) (:325-328)
+                    and the parent raises Exception(message) (:249-250) *)
+
+Definition bad_msg (k : bad) : msg := match k with Unloadable => MUnload | Refused => MRefused end.
 
 Inductive tri := TNone | TFalse | TTrue.     (* recorded/playback_result_is_exception: None until both are known *)
 
@@ -56,28 +66,37 @@ Inductive behaviour :=
 | BDrops                    (* an Equal replay whose answer is lost in transit (unpicklable result: mp.Queue's
                                feeder thread drops it); the worker goes on polling and is killed, idle, at the
                                timeout - leaving the task queue's read lock held *)
-| BDiesBefore.              (* the worker dies before taking this task from the queue (once); the replay itself
+| BDiesBefore               (* the worker dies before taking this task from the queue (once); the replay itself
                                is an Equal one *)
+| BBadAnswer (k : bad).     (* an Equal replay whose answer reaches the parent and cannot be used; the worker stays *)
 
 (** result of [_play_and_compare_recording] (:334-372) when it returns *)
 Record pres := Pres {
   p_status : status; p_msg : msg;
   p_pb : bool;             (* playback is not None *)
   p_f1 : tri; p_f2 : tri;
-  p_xraise : bool          (* the result extractor raises on this playback's outputs (also when the parent
+  p_xraise : bool;         (* the result extractor raises on this playback's outputs (also when the parent
                               re-extracts, :177) *)
+  p_bad : option bad       (* as an item of the result queue: the parent cannot use it (always None in-process) *)
 }.
 
 (** (:343-372); for the process-level behaviours this is the replay they stand for (an Equal one);
     [BExits] / [BHangs] never return and are intercepted before [play] is consulted. *)
 Definition play (b : behaviour) : pres :=
   match b with
-  | BDifferent => Pres Different MCmp true TFalse TFalse false
-  | BPlayerRaises => Pres EqualizerFailure MPlayer false TNone TNone false      (* :348 raises, playback None *)
-  | BExtractorRaises => Pres EqualizerFailure MExtractor true TNone TNone true  (* :350 raises *)
-  | BComparatorRaises => Pres EqualizerFailure MComparator true TFalse TFalse false  (* :359 raises *)
-  | BBare s => Pres s MNone true TFalse TFalse false                            (* :360-361 *)
-  | _ => Pres Equal MCmp true TFalse TFalse false
+  | BDifferent => Pres Different MCmp true TFalse TFalse false None
+  | BPlayerRaises => Pres EqualizerFailure MPlayer false TNone TNone false None      (* :348 raises, playback None *)
+  | BExtractorRaises => Pres EqualizerFailure MExtractor true TNone TNone true None  (* :350 raises *)
+  | BComparatorRaises => Pres EqualizerFailure MComparator true TFalse TFalse false None  (* :359 raises *)
+  | BBare s => Pres s MNone true TFalse TFalse false None                            (* :360-361 *)
+  | _ => Pres Equal MCmp true TFalse TFalse false None
+  end.
+
+(** what the worker's answer for a task of behaviour [b] is as an item of the result queue *)
+Definition answer_of (b : behaviour) : pres :=
+  match b with
+  | BBadAnswer k => let p := play b in Pres (p_status p) (p_msg p) (p_pb p) (p_f1 p) (p_f2 p) (p_xraise p) (Some k)
+  | _ => play b
   end.
 
 (** the failure Comparison of the outer handler (:203-212) *)
@@ -91,10 +110,15 @@ Definition result := (rid * pres)%type.
 (** (:171-191, :203-212): the Comparison the parent builds for recording [l] from a received result *)
 Definition to_cmp (keep : bool) (l : rid) (r : result) : cmp :=
   let p := snd r in
+  match p_bad p with
+  | Some k => failure_cmp l (bad_msg k)          (* :246 / :250 raises inside the wait loop -> :203; the worker, its
+                                                   age and the queues are as after any other answer *)
+  | None =>
   if p_pb p && keep then
     if p_xraise p then failure_cmp l MExtractor                      (* :177 raises -> :203 *)
     else Cmp l (p_status p) (p_msg p) (Some (fst r)) true true (p_f1 p) (p_f2 p)
-  else Cmp l (p_status p) (p_msg p) (if p_pb p then Some (fst r) else None) false false (p_f1 p) (p_f2 p).
+  else Cmp l (p_status p) (p_msg p) (if p_pb p then Some (fst r) else None) false false (p_f1 p) (p_f2 p)
+  end.
 
 (** ** In-process mode (:235-236) *)
 
@@ -169,7 +193,7 @@ Inductive wact :=
 | ADieBefore | AExit | AHang | ALate (r : result) | ABusy (d : nat) (r : result) | ADrop | AAnswer (r : result).
 
 Definition wact_of (t : task) : wact :=
-  let r := (t_id t, play (t_beh t)) in
+  let r := (t_id t, answer_of (t_beh t)) in
   match t_beh t with
   | BDiesBefore => if t_fired t then AAnswer r else ADieBefore
   | BExits => AExit
@@ -278,7 +302,8 @@ Fixpoint wait (fuel T start : nat) (s : st) : waited :=
     | 0 => WFuel
     | S f =>
         match get s with
-        | Got r s' => WGot r s'                               (* :246-252 (succeeded is always True, see notes) *)
+        | Got r s' => WGot r s'                               (* :246-252; an answer the parent cannot load, or a
+                                                                 (False, message) one, raises here: see [to_cmp] *)
         | Empty s' => if cur_alive s' then wait f T start s'  (* :253-254 *)
                       else WDied (forget s')                  (* :255-256 *)
         end
